@@ -317,8 +317,10 @@ pub fn main(opts: &Opts) {
             if text == base_text {
                 continue;
             }
-            let out = run(&text);
             let case = format!("{family};{label};{}", hexs(&text));
+            progress(&case);
+            let out = run(&text);
+            progress_idle();
             let verdict = if out == base { "ok".to_string() } else { format!("violation {label}") };
             sink.direct(&case, verdict);
             if let Some(line) = model(&text) {
